@@ -525,7 +525,7 @@ func generate(tier string) {
 	}
 	lim := 6
 	if full {
-		lim = 14
+		lim = 1 << 20 // complete pairwise product
 	}
 	for i := 0; i < len(names); i++ {
 		for j := i + 1; j < len(names); j++ {
@@ -543,6 +543,35 @@ func generate(tier string) {
 					}()
 					if d != nil {
 						checkValid(d, a.name+" + "+b.name)
+					}
+				}
+			}
+		}
+	}
+	// (2b) thorough: three sections at a time (reduced lists)
+	if full {
+		for i := 0; i < len(names); i++ {
+			for j := i + 1; j < len(names); j++ {
+				for k := j + 1; k < len(names); k++ {
+					for _, a := range reduce(secs[names[i]], 5) {
+						for _, b := range reduce(secs[names[j]], 5) {
+							for _, c := range reduce(secs[names[k]], 5) {
+								d := baseDesc()
+								func() {
+									defer func() {
+										if r := recover(); r != nil {
+											d = nil
+										}
+									}()
+									a.apply(d)
+									b.apply(d)
+									c.apply(d)
+								}()
+								if d != nil {
+									checkValid(d, a.name+" + "+b.name+" + "+c.name)
+								}
+							}
+						}
 					}
 				}
 			}
